@@ -685,6 +685,25 @@ fn leaf_mut<D: DerefMut<Target = [u32]>>(v: &mut In<D>, lf: &mut Leaf) -> Check 
             Ok(())
         }
         op if op.is_write() => do_write(v, lf),
+        COp::RowProbe { i } => {
+            // the same probe through IndexMut<usize> (a separate impl from Index<usize>)
+            row_probe(&*v, lf.g, *i)?;
+            let g = lf.g;
+            let r = catch(|| {
+                let row: &mut [u32] = &mut v[*i as usize];
+                row.to_vec()
+            });
+            if *i < g.h as u64 {
+                match r {
+                    Ok(r) => ensure!(r == g.c[*i as usize], "read-mismatch", "mutable row index [{i}] reads {:?}, model {:?}", r, g.c[*i as usize]),
+                    Err(_) if g.w == 0 => {}
+                    Err(p) => fail!("legal-read-panicked", "mutable row index [{i}] of a {}x{} view panicked: {p}", g.w, g.h),
+                }
+            } else if let Ok(r) = r {
+                fail!("oob-returned-value", "mutable row index [{i}] on a view of height {} returned the row {:?} instead of panicking", g.h, r);
+            }
+            Ok(())
+        }
         _ => leaf_imm(&*v, lf),
     }
 }
